@@ -57,6 +57,67 @@ Section C04.
   Proof. exact (all_reachable _ l (proj1 (sinv_run ops (wf_from_app _ _ _ W))) I). Qed.
 End C04.
 
+(* ---- appends on one log form a chain: an append that returned is in the causal past of every
+   later successful append on that log, whatever happened in between (merges, other appends,
+   identity changes, refused operations).  With C13 (writer sections of one log are serialised) this
+   is the "concurrent appends are serialised into one chain" clause. ---- *)
+Lemma entries_monotone_run_from more : forall s r l,
+  sinv s -> wf_from s more -> nth_error (s_logs s) r = Some l ->
+  exists l', nth_error (s_logs (run_from s more)) r = Some l' /\
+             forall k v, In (k, v) (l_entries l) -> In (k, v) (l_entries l').
+Proof.
+  induction more as [|o more IH]; intros s r l SI W L; cbn [run_from fold_left].
+  - exists l. auto.
+  - destruct W as [W1 W2]. destruct (step_entries_monotone s o r l SI W1 L) as [l1 [H1 [H2 _]]].
+    destruct (IH (fst (step s o)) r l1 (sinv_step s o SI W1) W2 H1) as [l2 [H3 H4]].
+    exists l2. split; [exact H3|]. intros k v Hin. apply H4, H2, Hin.
+Qed.
+
+Theorem C04_appends_form_a_chain ops r p1 pc1 h1 mid p2 pc2 h2 e1 e2 l2 :
+  let first := OAppend r p1 pc1 h1 in
+  let second := OAppend r p2 pc2 h2 in
+  wf (ops ++ first :: mid ++ [second]) ->
+  snd (step (run ops) first) = ResEntry e1 ->                              (* the earlier append returned e1 *)
+  snd (step (run (ops ++ first :: mid)) second) = ResEntry e2 ->           (* the later one returned e2 *)
+  nth_error (s_logs (run (ops ++ first :: mid ++ [second]))) r = Some l2 ->
+  e_hash e1 = h1 /\ treach (l_entries l2) [e2] h1.                        (* e1 is below e2 *)
+Proof.
+  intros first second W R1 R2 L2.
+  pose proof (sinv_run _ W) as [UO2 IL2]. pose proof (IL2 r l2 L2) as I2.
+  (* state after the first append *)
+  assert (W1 : wf (ops ++ [first])).
+  { replace (ops ++ first :: mid ++ [second]) with ((ops ++ [first]) ++ (mid ++ [second])) in W
+      by (rewrite <- app_assoc; reflexivity). exact (wf_from_app _ _ _ W). }
+  pose proof (sinv_run _ W1) as S1.
+  assert (A1 : exists l1, nth_error (s_logs (run (ops ++ [first]))) r = Some l1 /\ In (h1, e1) (l_entries l1) /\ e_hash e1 = h1).
+  { unfold run in *. rewrite run_from_app. cbn [run_from fold_left]. unfold first in *. cbn [step] in R1 |- *.
+    destruct (nth_error (s_logs (run_from empty_sys ops)) r) as [l|] eqn:L; [|discriminate].
+    unfold append in *. destruct (append_entry l p1 pc1 h1) as [e|] eqn:AE; [|discriminate].
+    destruct (allowed l e); cbn [fst snd s_logs] in *; [|discriminate].
+    injection R1 as <-. eexists. split; [rewrite nth_error_set_nth, L, Nat.eqb_refl; reflexivity|].
+    cbn [l_entries]. split; [|exact (ae_hash l p1 pc1 h1 e AE)].
+    apply oget_In. apply oget_oset_same. }
+  destruct A1 as [l1 [L1 [In1 Hh]]]. split; [exact Hh|].
+  (* through the operations in between, and the second append *)
+  assert (Wm : wf_from (run (ops ++ [first])) (mid ++ [second])).
+  { replace (ops ++ first :: mid ++ [second]) with ((ops ++ [first]) ++ (mid ++ [second])) in W
+      by (rewrite <- app_assoc; reflexivity). exact (wf_from_app_r _ _ _ W). }
+  destruct (entries_monotone_run_from (mid ++ [second]) _ r l1 S1 Wm L1) as [l' [L' Sub]].
+  assert (E : run_from (run (ops ++ [first])) (mid ++ [second]) = run (ops ++ first :: mid ++ [second])).
+  { unfold run. rewrite <- run_from_app. f_equal. rewrite <- app_assoc. reflexivity. }
+  rewrite E in L'. rewrite L2 in L'. injection L' as <-.
+  (* after the second append the single head is e2, and every entry is reachable from the heads *)
+  assert (H2 : l_heads l2 = [(h2, e2)]).
+  { revert L2. unfold run. rewrite app_comm_cons, app_assoc, run_from_app. cbn [run_from fold_left].
+    unfold second in *. cbn [step] in R2 |- *. fold (run (ops ++ first :: mid)).
+    destruct (nth_error (s_logs (run (ops ++ first :: mid))) r) as [l|] eqn:L; [|discriminate].
+    unfold append in *. destruct (append_entry l p2 pc2 h2) as [e|] eqn:AE; [|discriminate].
+    destruct (allowed l e); cbn [fst snd s_logs] in *; [|discriminate].
+    injection R2 as <-. rewrite nth_error_set_nth, L, Nat.eqb_refl. intros H. injection H as <-.
+    cbn [l_heads from_entries fold_left oset]. now rewrite (ae_hash l p2 pc2 h2 e AE). }
+  pose proof (all_reachable _ l2 UO2 I2 h1 e1 (Sub _ _ In1)) as T. rewrite H2 in T. exact T.
+Qed.
+
 From IpfsLog Require Import Model.ExampleHist Proofs.WfBool.
 Example C04_nonvacuous :
   (* the append that merges three concurrent heads in ex_hist: next = the 3 heads, time 3 > 2, refs = [101] *)
@@ -71,4 +132,5 @@ Print Assumptions C04_time_dominates.
 Print Assumptions C04_single_head.
 Print Assumptions C04_refs.
 Print Assumptions C04_log_is_causal_past.
+Print Assumptions C04_appends_form_a_chain.
 Print Assumptions C04_nonvacuous.
